@@ -492,6 +492,9 @@ def units_C17(tier, seed):
         U += unit(f'c17_accessors_{k}', H, f'accessors_h<{k}>()', sites=[1], diff=(k in (4, 5, 6)), flavours=('rel', 'dbg') if k in (4, 6) else ('rel',))
     for n, m in ((1, 1), (2, 3), (3, 2)) + (((4, 4), (1, 4)) if th else ()):
         U += unit(f'c17_backups_{n}_{m}', H, f'backups_h<{n},{m}>()', sites=[1], diff=(n == 2))
+    # rebuilt from the reported configurations through every constructor overload of every layer
+    for k in IO_STACKS + IO_LAYERS:
+        U += unit(f'c17_rebuild_{k}', H, f'rebuild_h<{k}>()', sites=[1, 2, 3], diff=(k in (5, 6)), flavours=('rel', 'dbg') if k in (4, 5, 6, 21) else ('rel',))
     return U
 
 
